@@ -172,9 +172,17 @@ class H:
 
     def _maybe_fault(self, spec, c):
         f = self.fault
-        if f is None:
+        if f is None and not spec.get("fail_args"):
             return
-        if spec.get("nofault"):
+        fa = spec.get("fail_args")
+        if fa:
+            for p, vals in fa.items():
+                if any(canon(c.args.get(p)) == canon(v) for v in vals):
+                    e = InjectedError(c.nid, c.k)
+                    e.item = canon(c.args.get(p))
+                    self.injected.append(e)
+                    raise e
+        if spec.get("nofault") or f is None:
             return
         if f == "choice":
             if self.fault_nodes is not None and c.nid not in self.fault_nodes:
@@ -541,6 +549,8 @@ def err_view(e):
     if e is None:
         return None
     if isinstance(e, InjectedError):
+        if hasattr(e, "item"):
+            return ("injected", e.nid, "item", e.item)
         return ("injected", e.nid, e.k)
     return (type(e).__name__, str(e)[:200])
 
@@ -559,7 +569,8 @@ def execute(prog, inputs, *, runner="sync", chooser=None, h=None, graph=None, **
     except Exception as e:  # noqa: BLE001
         x.exc = e
         return x
-    inputs = {k: canon(v) for k, v in inputs.items()}
+    if kw.pop("canon_inputs", True):
+        inputs = {k: canon(v) for k, v in inputs.items()}
     kw = {k: v for k, v in kw.items() if v is not None}
     with warnings.catch_warnings(record=True) as w:
         warnings.simplefilter("always")
